@@ -25,7 +25,7 @@ func connectedDuringTrim(value int) (reached, closedFresh bool, log []string) {
 	}()
 	synctest.Wait()
 	nf := g.rec.notifee
-	const pT, pA, pB = 4, 5, 6 // three different segments
+	const pT, pA, pB = 4, 5, 6            // three different segments
 	g.cm.TagPeer(peerIDs[pT], "a", value) // buffered record of an unconnected peer, created at t=0
 	ca, _ := g.connFor(op{P: pA, S: 0}, nil)
 	cb, _ := g.connFor(op{P: pB, S: 0}, nil)
